@@ -209,14 +209,14 @@ func stateVariants(c *chain.Chain, spec *common.Spec, s *chain.Step, fs *flat.St
 				g := *fs
 				sc := *fs.CurrentSyncCommittee
 				sc.Pubkeys = append([][48]byte(nil), fs.CurrentSyncCommittee.Pubkeys...)
-				sc.Pubkeys[i] = c.Keys.Pubkey(900000 + i)
+				sc.Pubkeys[i] = c.Keys.Pubkey(1900 + i%64)
 				g.CurrentSyncCommittee = &sc
 				out = append(out, stateVariant{"pre-state:sync-committee-member-not-in-registry", "sync_aggregate.committee_pubkey_unknown", &g, nil})
 				break
 			}
 		}
 	}
-	if flat.ForkIndex(fs.Fork) >= 3 && rng.Intn(6) == 0 {
+	if flat.ForkIndex(fs.Fork) >= 3 && rng.Intn(2) == 0 {
 		g := *fs
 		g.NextWithdrawalValIdx = uint64(len(fs.Validators)) + uint64(rng.Intn(3))
 		out = append(out, stateVariant{"pre-state:withdrawal-cursor-out-of-registry", "withdrawals.validator_index", &g, nil})
